@@ -114,7 +114,7 @@ func parseRequest(body []byte) (*ParseRequestResponse, error) {
 		}
 
 		for _, r := range multipleRequests {
-			if r.Query == "" {
+			if r == nil || r.Query == "" {
 				return nil, errors.New("missing query from request")
 			}
 		}
